@@ -687,6 +687,13 @@ def hostile_texts():
         ("huge-attribute", "<definitions %s label=\"%s\"/>" % (ns, "x" * 300000)),
         ("many-attributes", "<definitions %s %s/>" % (ns, " ".join('a%d="1"' % i for i in range(3000)))),
     ]
+    # not XML / not well-formed, with a multi-byte character starting at every byte offset of the first 272 bytes (whatever a
+    # diagnostic quotes from a rejected document is cut at some byte), and the same inside an attribute of a well-formed model
+    for off in range(0, 272):
+        wide = ("żółć–—", "😀😀", "€€€")[off % 3]
+        out.append(("multibyte-at-offset-%d" % off, "x" * off + wide + (" <unclosed", " plain text", "<a><b></a>")[(off // 3) % 3]))
+    for off in range(0, 272, 5):
+        out.append(("multibyte-in-model-at-offset-%d" % off, "<definitions %s label=\"%s%s\"><unclosed></definitions>" % (ns, "x" * off, "😀—ż")))
     for depth in (200, 2000, 20000):
         out.append(("nested-elements-%d" % depth, "<definitions %s>%s%s</definitions>" % (ns, "<a>" * depth, "</a>" * depth)))
     # nesting inside the parts of a model the DMN parser walks recursively
